@@ -523,6 +523,10 @@ def run(pm, ctx):
     parser_state(pm, ctx, 'C01-R8')
     ctx.import_rules(pm, 'C02', {'C02-R5'}, 'C01-R7',
                      'field listings that legality checks iterate are complete (shared with C02-R5)')
+    ctx.import_rules(pm, 'C02', {'C02-R9'}, 'C01-R10',
+                     'absence of a declared value is tested with `is None`, never by truth value: '
+                     'a route attribute or default of false / 0 / "" is a value (shared with '
+                     'C02-R9)')
     from .. import effects
     effects.run_refusals(pm, ctx, 'C01-R9', ('stone.frontend', 'stone.ir'),
                          ('InvalidSpec', 'ParameterError', 'ValueError'),
